@@ -713,6 +713,13 @@ class Image:
                 )
         assert len(voxels) == self.space_dim
 
+        # Normalize the slices to the image extent (resolves open-ended, negative and
+        # too large bounds in the same way as numpy does when fetching the data below),
+        # such that origin and dimensions describe exactly the extracted block.
+        voxels = tuple(
+            slice(*sl.indices(self.num_voxels[d])) for d, sl in enumerate(voxels)
+        )
+
         # ! ---- Extract dimensions and new origin from voxels
 
         origin_voxel = [0 if sl.start is None else sl.start for sl in voxels]
